@@ -4,7 +4,7 @@ import typing
 from ..common import Verdict, digest, rng_for, run_shards, seed, tier
 
 PROP = "C10"
-N = {"quick": 5000, "thorough": 120000}
+N = {"quick": 12000, "thorough": 150000}
 ALPHA = ["a", "b", "z", "A", '"', "'", "\\", "\n", "\t", ",", " ", "]", "[", "é", "ß", "日", "ж", "😀", "𝄞", "{", "}", "%", "#", "$", "\r", "\x7f", " ", "\x00"]
 FW = ["base", "pydantic", "dataclasses", "attrs", "sqlmodel"]
 PSEUDO = ["1", "42", "2.5", "1e3", "true", "False", "2018-01-02", "10:30:00", "2018-01-02T10:30:00"]
